@@ -101,11 +101,17 @@ impl<W: Write> Session<W> {
         }
     }
 
-    fn panicked(&mut self, s: usize, op: &str, msg: String) {
+    fn panicked(&mut self, s: usize, op: &str, msg: String, input: Option<&str>) {
         self.panics += 1;
         self.slots[s - 1] = None;
         self.buf.clear();
-        let _ = write!(self.buf, "{{\"ev\":\"panic\",\"slot\":{},\"op\":\"{}\",\"msg\":\"{}\"}}", s, op, esc(&msg));
+        let _ = write!(self.buf, "{{\"ev\":\"panic\",\"slot\":{},\"op\":\"{}\",\"msg\":\"{}\"", s, op, esc(&msg));
+        if let Some(t) = input {
+            // the input of the panicking call: the trace specification works out which functions it carried
+            self.buf.push_str(",\"s\":");
+            obs::str_cps(&mut self.buf, t);
+        }
+        self.buf.push('}');
         self.emit();
     }
 
@@ -150,7 +156,7 @@ impl<W: Write> Session<W> {
                 true
             }
             Err(e) => {
-                self.panicked(s, "feed_str", panic_msg(e));
+                self.panicked(s, "feed_str", panic_msg(e), Some(text));
                 false
             }
         }
@@ -178,7 +184,7 @@ impl<W: Write> Session<W> {
                 true
             }
             Err(e) => {
-                self.panicked(s, "feed", panic_msg(e));
+                self.panicked(s, "feed", panic_msg(e), Some(text));
                 false
             }
         }
@@ -205,7 +211,7 @@ impl<W: Write> Session<W> {
                 true
             }
             Err(e) => {
-                self.panicked(s, "resize", panic_msg(e));
+                self.panicked(s, "resize", panic_msg(e), None);
                 false
             }
         }
@@ -226,7 +232,7 @@ impl<W: Write> Session<W> {
                 Some(d)
             }
             Err(e) => {
-                self.panicked(s, "dump", panic_msg(e));
+                self.panicked(s, "dump", panic_msg(e), None);
                 None
             }
         }
@@ -251,7 +257,7 @@ impl<W: Write> Session<W> {
                 true
             }
             Err(e) => {
-                self.panicked(s, "text", panic_msg(e));
+                self.panicked(s, "text", panic_msg(e), None);
                 false
             }
         }
@@ -298,7 +304,7 @@ impl<W: Write> Session<W> {
                 true
             }
             Err(e) => {
-                self.panicked(s, "query", panic_msg(e));
+                self.panicked(s, "query", panic_msg(e), None);
                 false
             }
         }
